@@ -31,6 +31,12 @@ type spec struct {
 	Version uint32           `json:"version"`
 	Reset   uint32           `json:"reset"`
 	Secs    []snpref.Section `json:"sections"`
+	// Decoys: structures a correct reader never looks at. A complete, well-formed but different
+	// metadata blob at file offset 0 (when the real one lives elsewhere) and a reset-block-shaped
+	// entry with another address right below the table (outside the size the footer declares).
+	// A reader that takes either produces a digest the model does not.
+	DecoySecs  []snpref.Section `json:"decoy_sections_at_offset_0,omitempty"`
+	DecoyReset *uint32          `json:"decoy_reset_below_table,omitempty"`
 }
 
 const tableEndOffset = 0x20
@@ -90,6 +96,31 @@ func (s *spec) build(fill *rand.Rand) ([]byte, error) {
 	fw := make([]byte, s.Size)
 	for i := 0; i+8 <= len(fw); i += 8 {
 		binary.LittleEndian.PutUint64(fw[i:], fill.Uint64())
+	}
+	// decoys first, so that the real structures win any overlap
+	if len(s.DecoySecs) > 0 {
+		if 16+12*len(s.DecoySecs) > s.MetaOff {
+			return nil, fmt.Errorf("decoy metadata does not fit below the metadata at %d", s.MetaOff)
+		}
+		copy(fw, "ASEV")
+		binary.LittleEndian.PutUint32(fw[4:], uint32(16+12*len(s.DecoySecs)))
+		binary.LittleEndian.PutUint32(fw[8:], 1)
+		binary.LittleEndian.PutUint32(fw[12:], uint32(len(s.DecoySecs)))
+		for i, sec := range s.DecoySecs {
+			b := fw[16+12*i:]
+			binary.LittleEndian.PutUint32(b, sec.Addr)
+			binary.LittleEndian.PutUint32(b[4:], sec.Len)
+			binary.LittleEndian.PutUint32(b[8:], sec.Kind)
+		}
+	}
+	if s.DecoyReset != nil {
+		if s.MetaOff+s.metaLen() > tableStart-22 {
+			return nil, fmt.Errorf("decoy reset block collides with the metadata")
+		}
+		binary.LittleEndian.PutUint32(fw[tableStart-22:], *s.DecoyReset)
+		binary.LittleEndian.PutUint16(fw[tableStart-18:], 22)
+		g := snpref.EFIGUID(snpref.ResetGUID)
+		copy(fw[tableStart-16:], g[:])
 	}
 	// metadata
 	m := fw[s.MetaOff:]
